@@ -12,6 +12,7 @@ LEVEL_TEXT = ("Theorems, for every ngeom and all arrays: `upper_tri_index` (rege
               "pair listing {g1,g2}, else -1 iff the geoms pass contype/conaffinity, lie on different weld bodies, are not parent and child (unless filterparent is off) and are not excluded, else "
               "-2; this equals the property's rule for compiled models; filtered entries are never written by write_contact / never enter the NXN list / are skipped by the SAP gate; explicit pairs "
               "use the pair's margin/gap/condim/friction/solref/solimp. The reported contact pairs are compared with mujoco.mj_collision.")
+TECHNIQUE = ("Lean 4 theorems over a hand-written model of put_model's pair table (Model/PairFilter.lean) tied to the real put_model by a line-protocol correspondence on every run, plus theorems over kernels regenerated from source; oracle mujoco.mj_collision")
 LEVEL_NOTE = ("C19_partial: the NumPy block is modelled by hand (correspondence-checked); degenerate explicit pairs (geom1 == geom2) and duplicated pairs deviate from MuJoCo (C19Witness; known findings). "
               "Trusted: Lean kernel, tier-A/B translator, correspondence harness.")
 ASSUMPTIONS = ["compiled models: body ids < 2^15, geoms stored body by body, excludes stored as (min<<16)+max"]
